@@ -34,7 +34,7 @@
 
 use self::errors::*;
 use crate::temporal::ym_duration::FeelYearsAndMonthsDuration;
-use crate::temporal::{weekday, FeelDateTime, FeelTime};
+use crate::temporal::{FeelDateTime, FeelTime};
 use crate::FeelNumber;
 use chrono::{DateTime, Datelike, FixedOffset, Local};
 use dmntk_common::DmntkError;
@@ -201,7 +201,15 @@ impl FeelDate {
   }
   ///
   pub fn weekday(&self) -> Option<u32> {
-    weekday(&FeelDateTime(self.clone(), FeelTime::utc(0, 0, 0, 0)))
+    // number of days since 0000-03-01 (a Wednesday) in proleptic Gregorian calendar, valid for all representable years
+    let (year, month) = if self.1 <= 2 {
+      (self.0 as i64 - 1, self.1 as i64 + 9)
+    } else {
+      (self.0 as i64, self.1 as i64 - 3)
+    };
+    let days = 365 * year + year.div_euclid(4) - year.div_euclid(100) + year.div_euclid(400) + (153 * month + 2) / 5 + self.2 as i64 - 1;
+    // weekdays are numbered from 1 (Monday) to 7 (Sunday)
+    Some((days + 2).rem_euclid(7) as u32 + 1)
   }
   ///
   pub fn as_tuple(&self) -> (i32, u32, u32) {
